@@ -29,6 +29,7 @@ ASSUMPTIONS = [
 ]
 MIN_NONTRIVIAL_FRACTION = 0.2
 RULE += " Added after the seeded rounds: " + 'Tools are also requested as an argument of another tool, inside arithmetic and inside a comparison, and under other spellings of their name (upper-case, title-case, padded). Bodies are counted per registration (a body whose own registration is outside the allowed set must never run, whatever the name resolves to), and 1/8 of the generated cases plus an enumerated table are two-thread races: one thread requests t0 through metabolize / execute_tool_call / the Nucleus tool loop while a second re-registers t0 with other requirements, under every single-preemption schedule (line granularity of mitochondria.py and nucleus.py) and under generated schedules.'
+RULE += ' In the LLM tool loop one provider turn requests the tool under test twice plus every other registered tool, with call ids that are distinct, all equal, empty, or equal with the order reversed (a verdict about one call must never cover another); enumerated for two tools x both registration orders x 4 id modes.'
 EXHAUSTIVE_NOTE = {"quick": "12 allowed sets (incl. None, empty, full) x 12 required sets x 10 entry points = 1440 single-tool cases, complete for that lattice; re-registration race: 3 configurations x 4 entry points x every single preemption point up to step 90",
                    "thorough": "same lattice, complete; race table up to step 160"}
 
@@ -55,6 +56,7 @@ def strategy(tier):
         "allowed": st.one_of(st.none(), st.just([]), _caps, _caps),
         "init": st.lists(st.tuples(st.sampled_from(TOOLS), _caps).map(list), max_size=2),
         "steps": st.lists(_step, min_size=1, max_size=12),
+        "ids": st.sampled_from(["distinct", "distinct", "same", "empty", "reversed"]),
     })
     # "interleavings of registration and calls" taken literally: a second thread re-registers the requested name while the request is in flight
     race = st.fixed_dictionaries({
@@ -73,6 +75,13 @@ def enumerate_cases(tier):
     for allowed, req, entry in itertools.product(_LATTICE, _LATTICE, ENTRIES):
         r = req or []
         yield {"allowed": allowed, "init": [], "steps": [["reg", "engulf", "t0", r], ["call", entry, "t0"]]}
+    for ids in ("distinct", "same", "empty", "reversed"):
+        for allowed in ([], ["READ_FS"]):
+            for bad in (["NET"], ["MONEY", "NET"]):
+                for first, second in (("t0", "t1"), ("t1", "t0")):
+                    for asked_tool in ("t0", "t1"):
+                        yield {"allowed": allowed, "init": [], "ids": ids,
+                               "steps": [["reg", "engulf", first, bad], ["reg", "engulf", second, list(allowed)], ["call", "nucleus", asked_tool]]}
     horizon = 160 if tier == "thorough" else 90
     for allowed, old in (([], []), (["READ_FS"], ["READ_FS"]), (["READ_FS"], [])):
         for entry in RACE_ENTRIES:
@@ -171,6 +180,7 @@ def judge(case):
         # the tool may be requested under another spelling of its name: whatever the engine resolves it to, a disallowed body must not run
         asked = {"exact": name, "upper": name.upper(), "title": name.title(), "padded": " " + name + " "}[variant]
         before = dict(counters)
+        ids_mode = case.get("ids", "distinct")
         ran_before = [r[2] for r in regs]
         leaked_into = []
         reported_success = None
@@ -215,8 +225,14 @@ def judge(case):
 
                     def complete_with_tools(self, prompt, tools, config=None):
                         prompts.append(prompt)
-                        calls = [ToolCall(id="n%d_%d" % (i, len(prompts)), name=asked, arguments={}),
-                                 ToolCall(id="n%d_%d_b" % (i, len(prompts)), name=name, arguments={})] if len(prompts) <= 3 else []
+                        # one provider turn requests the tool under test (twice) and every other registered tool; the call ids of one turn
+                        # are distinct, all equal or empty (an adversarial / sloppy provider): a verdict about one call must never cover another
+                        wanted = [asked, name] + [n_ for n_ in sorted(required) if n_ not in (name, "helper")]
+                        if ids_mode == "reversed":
+                            wanted = wanted[::-1]
+                        mk = {"distinct": lambda k: "n%d_%d_%d" % (i, len(prompts), k), "same": lambda k: "call", "empty": lambda k: "",
+                              "reversed": lambda k: "call"}[ids_mode]
+                        calls = [ToolCall(id=mk(k), name=w, arguments={}) for k, w in enumerate(wanted)] if len(prompts) <= 3 else []
                         return LLMResponse(content="r", model="m", tokens_used=1, latency_ms=0.0), calls
 
                 resp = Nucleus(provider=Provider()).transcribe_with_tools("please", m, max_iterations=3)
@@ -259,6 +275,8 @@ def judge(case):
                 out.label("permitted-tool-ran")
         # no other tool may have run
         for other, c in counters.items():
+            if entry == "nucleus":
+                break          # the adversarial provider requested every registered tool in that turn: only disallowed bodies matter (checked above)
             if other not in (name, "helper") and c != before.get(other, 0):
                 out.fail("bystander-tool-ran", "tool %s ran although %s was requested" % (other, name), d)
                 return out
